@@ -280,6 +280,28 @@ theorem addF_creates {s : State} (hs : HInv s) (g : Nat) (ts : List Nat) (u : Bo
       · simp [lview, addFok, mem_insertNew]
       · simp [lview, addFok, mem_dSet_new hkey]
 
+/-- **Freshness and creation targets** for `add_f_nodes_from`: when the call returns, every given
+set has got an F-node of its own whose name was not a node before -/
+theorem addFs_creates_heap {s : State} (hs : HInv s) (g : Nat) (tss : List (List Nat))
+    (hok : (step Cfg.fixed s (.at g (.addFs tss))).2 = .ok) :
+    ∀ b ∈ view Cfg.fixed s g, ∀ a ∈ view Cfg.fixed (step Cfg.fixed s (.at g (.addFs tss))).1 g,
+      ∀ ts ∈ tss, CreatedF b a ⟨ts, [1]⟩ := by
+  intro b hb a ha ts hts
+  cases h : s.objs[g]? with
+  | none => rw [view, h] at hb; cases hb
+  | some o =>
+    rw [view_at h] at hb
+    have ha' := stepAt_view_self hs (.addFs tss) h
+    change a ∈ view Cfg.fixed (stepAt Cfg.fixed s g (.addFs tss)).1 g at ha
+    rw [ha'] at ha
+    cases hb; cases ha
+    have hst : (stepLocal Cfg.fixed (localOf s o) (.addFs tss)).2 = .ok := by
+      have : (stepAt Cfg.fixed s g (.addFs tss)).2 = .ok := hok
+      rw [stepAt_some _ h] at this; exact this
+    simp only [stepLocal] at hst ⊢
+    obtain ⟨k, k1, k2, k3⟩ := addFs_creates tss (hs.linv g o h) hst ts hts
+    exact ⟨k, mem_dKeys.2 ⟨_, k3⟩, k1, k2, _, k3, rfl, sameEntry_refl _⟩
+
 /-- **Freshness** for `add_s_node` -/
 theorem addS_creates {s : State} (hs : HInv s) (g : Nat) (d : Nat × Nat) (chg : List Nat)
     (hok : (step Cfg.fixed s (.at g (.addS d chg))).2 = .ok) :
